@@ -8,7 +8,8 @@ import JjModel.Drv.Util
      events joined by `/`: `S<pid>:r` resolve_op_heads · `S<pid>:p<op>` publish operation `op` ·
        `T<pid>` / `T<pid>:<n>` one hook point (argument: the merge operation about to be created for
        a locked read, the removed operation for a remove) · `X<pid>` crash
-     answer: one item per event joined by `;` — `S`, `X <heads>`, `<kind> <heads>[ ret=<op>]`
+     answer: one item per event joined by `;` — `S`, `X <heads>`, `<kind> <heads>[ ret=<op>]` (`ret` when a
+       `resolve_op_heads` ended with this step: the operation it returns)
        heads = numbers in insertion order joined by `,` (`none` if empty); `reject@i` if event `i`
        is not enabled in the model; `bad-dag` if parents are not earlier operations.
 -/
@@ -41,7 +42,9 @@ def kindOf : Instr Nat OInstr → List Nat → String
   | .rms _ _, arg => s!"rm:{showNatList arg}"
   | .client (.read _), _ => "read"
 
-def describe (s t : OState) : OEvent → String
+/-- `resolving` = the process's running operation is a `resolve_op_heads` (only then the operation
+    it returns is an observation; `publish` returns nothing the model knows about) -/
+def describe (s t : OState) (resolving : Bool) : OEvent → String
   | .start _ _ => "S"
   | .crash _ => s!"X {showHeads t.heads}"
   | .step pid arg =>
@@ -51,16 +54,29 @@ def describe (s t : OState) : OEvent → String
         | [] => "?"
       | none => "?"
     let done := match t.procs[pid]? with
-      | some p => if p.instrs.isEmpty then s!" ret={p.loc}" else ""
+      | some p => if p.instrs.isEmpty && resolving then s!" ret={p.loc}" else ""
       | none => ""
     s!"{kind} {showHeads t.heads}{done}"
 
-def trace (working : Bool) (cl : Client Nat OInstr Nat) : OState → Nat → List OEvent → List String → List String
-  | _, _, [], acc => acc.reverse
-  | s, i, e :: es, acc =>
+def isResolveProg : OProg → Bool
+  | [.client (.read false)] => true
+  | _ => false
+
+def pidOf : OEvent → Nat
+  | .start pid _ => pid
+  | .step pid _ => pid
+  | .crash pid => pid
+
+def trace (working : Bool) (cl : Client Nat OInstr Nat) :
+    OState → List Bool → Nat → List OEvent → List String → List String
+  | _, _, _, [], acc => acc.reverse
+  | s, res, i, e :: es, acc =>
+    let res' := match e with
+      | .start pid prog => res.set pid (isResolveProg prog)
+      | _ => res
     match apply working cl s e with
     | none => (s!"reject@{i}" :: acc).reverse
-    | some t => trace working cl t (i + 1) es (describe s t e :: acc)
+    | some t => trace working cl t res' (i + 1) es (describe s t (res'.getD (pidOf e) false) e :: acc)
 
 def handle : List String → Option String
   | ["run", w, np, dag, evs] => do
@@ -69,7 +85,7 @@ def handle : List String → Option String
     let G ← parseNatListList dag
     if !wfDag G then some "bad-dag" else
     let evs ← (evs.splitOn "/").mapM (parseEvent G)
-    some (";".intercalate (trace (w != 0) (opClient true G) (s0 np) 0 evs []))
+    some (";".intercalate (trace (w != 0) (opClient true G) (s0 np) (List.replicate np false) 0 evs []))
   | ["anc", dag, a, b] => do
     let G ← parseNatListList dag
     some (showBool (isAnc G (← a.toNat?) (← b.toNat?)))
